@@ -292,10 +292,18 @@ where
         // place all probability mass on a single symbol).
         assert!(support.end() > support.start());
 
-        let support_size_minus_one = support.end().wrapping_sub(support.start()).as_();
+        // Compute the size of the support in a wide type: narrowing (or sign-extending) the
+        // difference to `Probability` first would make an oversized support look small.
+        let support_size_minus_one: Option<Probability> =
+            match (support.end().to_i128(), support.start().to_i128()) {
+                (Some(end), Some(start)) => end
+                    .checked_sub(start)
+                    .and_then(<Probability as num_traits::NumCast>::from),
+                _ => None,
+            };
         let max_probability = Probability::max_value() >> (Probability::BITS - PRECISION);
-        let free_weight = max_probability
-            .checked_sub(&support_size_minus_one)
+        let free_weight = support_size_minus_one
+            .and_then(|support_size_minus_one| max_probability.checked_sub(&support_size_minus_one))
             .expect("The support is too large to assign a nonzero probability to each element.")
             .into();
 
